@@ -77,22 +77,32 @@ def repointLoopG (s : State) (query oldThread oldOwner newOwner : Nat) : Nat →
                  oldOwner seg
       else repointLoopG s query oldThread oldOwner newOwner fuel nextTarget
 
-/-- the `match dg.transferred.entry(query)` block of `transfer_lock` -/
-def transferEntryG (s : State) (query cur newOwner nt : Nat) : Option (Option (State × Bool)) :=
+/-- the `match dg.transferred.entry(query)` block of `transfer_lock`:
+    `some none` = the early `return false`; otherwise the state and `(thread_changed, new_mapping)` -/
+def transferEntryG (s : State) (query cur newOwner nt : Nat) : Option (Option (State × Bool × Bool)) :=
   match s.transferred query with
-  | none =>
+  | none =>                                        -- Entry::Vacant
     some (some ({ s with transferred := upd s.transferred query (some (nt, newOwner)) },
-                transfer_vacant_thread_changed cur nt))
+                transfer_vacant cur nt))
   | some (oldThread, oldOwner) =>
-    if transfer_noop oldThread oldOwner nt newOwner then some none
-    else
+    if transfer_same_mapping oldThread oldOwner nt newOwner then   -- Entry::Occupied(entry) if …
+      if transfer_noop cur nt then some none
+      else some (some (s, transfer_retransfer_same_owner cur nt))
+    else                                           -- Entry::Occupied(mut entry)
       match tdepsRemove s oldOwner query with
       | none => none
       | some s1 =>
         let s2 := { s1 with transferred := upd s1.transferred query (some (nt, newOwner)) }
         match repointLoopG s2 query oldThread oldOwner newOwner (s.bound + 1) newOwner with
         | none => none
-        | some s3 => some (some (s3, transfer_occupied_thread_changed cur nt))
+        | some s3 => some (some (s3, transfer_occupied cur nt))
+
+/-- does the entry for `query` already hold `(new_owner_thread, new_owner)`?  (the guard of the
+    second arm) -/
+def sameMappingG (s : State) (query newOwner nt : Nat) : Bool :=
+  match s.transferred query with
+  | none => false
+  | some (oldThread, oldOwner) => transfer_same_mapping oldThread oldOwner nt newOwner
 
 -- src/runtime/dependency_graph.rs: fn transfer_lock, everything before the final `block_on`
 def transferLockCoreG (s : State) (query cur newOwner : Nat) (ownerId : SyncOwner) :
@@ -105,11 +115,12 @@ def transferLockCoreG (s : State) (query cur newOwner : Nat) (ownerId : SyncOwne
       match transferEntryG s query cur newOwner nt with
       | none => none
       | some none => some (s, .noop, nt)
-      | some (some (s4, changed)) =>
-        match registerDependent s4 query newOwner with
+      | some (some (s4, threadChanged, newMapping)) =>
+        match (if transfer_registers_dependent newMapping then registerDependent s4 query newOwner
+               else some s4) with
         | none => none
         | some s5 =>
-          if transfer_runs_after changed then
+          if transfer_runs_after threadChanged then
             match afterTransfer s5 query nt with
             | none => none
             | some s7 => some (s7, .changed, nt)
